@@ -187,13 +187,22 @@ func cmdCheck(args []string) int {
 				defer wg.Done()
 				sem <- struct{}{}
 				defer func() { <-sem }()
-				batch[i] = p.VerifyFunc(fn, opts)
+				o := opts
+				if sweepFns[fn] {
+					// zero-annotation sweep: only the lock discipline obligations of this function are claimed here; its
+					// functional contracts (if any) and those of its callees belong to the properties they are tagged with
+					o.OnlyKinds = map[string]bool{"lock": true, "guard": true}
+				}
+				batch[i] = p.VerifyFunc(fn, o)
 			}()
 		}
 		wg.Wait()
 		results = append(results, batch...)
 		var next []*ssa.Function
 		for _, r := range batch {
+			if sweepFns[r.Fn] {
+				continue
+			}
 			for _, c := range r.Called {
 				if !done[c] {
 					if fc := p.contracts[c]; fc != nil && !fc.Trusted {
